@@ -1146,6 +1146,27 @@ pub fn run(ctx: &Ctx) -> i32 {
             }
         });
         rep.absorb("spine_depth5_coarse_alphabet", r);
+        // depth 6 (the property's bound) over the 8 constructors whose parenthesisation rules differ most
+        let coarse6 = vec![
+            Ctor::Un(UnaryOp::Minus),
+            Ctor::Un(UnaryOp::PostfixDecrement),
+            Ctor::Bin(BinOp::Subtract),
+            Ctor::Bin(BinOp::GreaterThan),
+            Ctor::Bin(BinOp::Assignment),
+            Ctor::Ternary,
+            Ctor::Call1,
+            Ctor::Cast,
+        ];
+        let col6 = spine_letters(&coarse6);
+        let tot = (col6.len() as u64).pow(5) * coarse6.len() as u64;
+        let r = run_par(ctx, tot, 1024, |idx, acc| {
+            let s = spine_shape(&coarse6, &col6, &coarse6, idx, 6);
+            check_shape(&s, &plain, acc);
+            if idx % 1_000_003 == 5 {
+                acc.sample(obj(vec![("space", "spine6".into()), ("tree", s.describe().into())]));
+            }
+        });
+        rep.absorb("spine_depth6_coarse_alphabet", r);
     } else {
         rep.caps_hit.push("quick tier: spine trees of depth 4 and 5 are explored in the thorough tier only".into());
     }
@@ -1154,7 +1175,7 @@ pub fn run(ctx: &Ctx) -> i32 {
         "ambiguity nodes the parser creates on purpose (AmbiguousParseBranch, Either, AmbiguousDeclarationOrExpression) are resolved in both trees with the type checker's rule against a fixed type environment (T, U, built-in type names, declared struct/enum names)".into(),
         "negative / NaN literal nodes have no token of their own; they are judged on value and type (reading back as unary minus on the positive literal with the same value is accepted)".into(),
         "trees the formatter reports as unprintable (FormatError) produced by the parser are outside the property; generated trees must be printable".into(),
-        "depth bound: full alphabet to depth 2 (all trees) and 3 (spines); thorough adds spines of depth 4 over a 26-class alphabet and depth 5 over a 12-class alphabet; the property's depth 6 is not reached".into(),
+        "depth bound: full alphabet to depth 2 (all trees) and 3 (spines); thorough adds spines of depth 4 over a 26-class alphabet, depth 5 over a 12-class alphabet and depth 6 over an 8-class alphabet; general (non-spine) trees stop at depth 2".into(),
         "MSL target printing is not re-read (no Metal parser); Rssl and Hlsl targets are".into(),
     ];
     finish(ctx, rep)
